@@ -610,10 +610,10 @@ InitState ==
    ip |-> [on |-> FALSE, cost |-> 0, subs |-> {}, cur |-> 0, funds |-> {}],
    refillAt |-> NextMonth(DAY + 3661), monthsLeft |-> 47,
    proj |-> [c \in Consumers |-> {}], keys |-> {},
-   bank |-> [a \in Accts |-> CASE a = "users" -> 29990000 [] a = "valalloc" -> 4700000 [] a = "provalloc" -> 4700000
-                                   [] a = "valdist" -> 100000 [] a = "provdist" -> 100000 [] a = "bonded" -> 20010000
+   bank |-> [a \in Accts |-> CASE a = "users" -> 29992000 [] a = "valalloc" -> 4700000 [] a = "provalloc" -> 4700000
+                                   [] a = "valdist" -> 97990 [] a = "feecol" -> 2010 [] a = "provdist" -> 100000 [] a = "bonded" -> 20010000
                                    [] OTHER -> 0],
-   supply |-> 59600000, dsup |-> 0,
+   supply |-> 59602000, dsup |-> 0,
    obl |-> [ds |-> 0, iprpc |-> 0, sub |-> 0],
    panicked |-> FALSE, last |-> [ev |-> "reset", res |-> "reset"]]
 
@@ -657,7 +657,8 @@ TimeStep(S) == LET ok == {w \in DtWeights : TimeOk(S, DtOf(S, w[1]))} IN
                ELSE [a |-> "NextBlock", dt |-> RandomElement(ok)[1]]
 \* one kind is drawn first and only its candidate set is computed; a kind without enabled candidates is replaced
 \* by a block-time step
-GenNext == \E kc \in {RandomElement(KindsOf(Bias))} :
+\* (the filter on nops keeps the draw from being a constant-level expression, which TLC would evaluate once and cache)
+GenNext == \E kc \in {RandomElement({q \in KindsOf(Bias) : nops >= 0})} :
              \E cs \in {IF kc[1] = "NextBlock" THEN {} ELSE Cands(st, kc[1])} :
                \E x \in {IF cs = {} THEN TimeStep(st) ELSE RandomElement(cs)} : Do(x)
 Emit == (nops < MaxOps /\ ~st.panicked) \/ PrintT(<<"BEH", ToJson(hist)>>)
